@@ -49,6 +49,12 @@ CLAIMED["C11"] = ("4/C11", "Real OffsetDateTime/OffsetDate/OffsetTime/Instant co
                   "with_calendar, +/- Duration in all six spellings (instant moves exactly; offset and calendar retained), plus_<unit>, "
                   "value - value = instant difference across offsets and calendars, date/time adjusters, OffsetDate/OffsetTime recombination.",
                   "ZonedDateTime arithmetic over a symbolic zone is claimed under C05's SymZone lemmas when built; real-calendar retention lemma in thorough only")
+CLAIMED["C16"] = ("4/C16", "All 49 regular and 21 BCL-style week-year rules over an ABSTRACT calendar (arbitrary year start, arbitrary lengths "
+                  "353..385 of five adjacent years): round trip of (week-year, week, weekday) for every day of the year, week within the reported "
+                  "weeks, week-year within +-1; the same with the calendar range ending exactly at the year's end/start (seeded partitions in quick, "
+                  "all 140 in thorough); weeks advance every 7 days from the first day of week; the ISO rule against the ISO-8601 definition; "
+                  "next/previous(/or-same) via abstract self; n-th weekday of month over 400-year ISO windows; real calendar range ends as a labelled premise.",
+                  "stdlib isocalendar agreement is not a separate check: the ISO definition lemma plus C02's ISO day-of-week lemma imply it")
 NOT_BUILT = {}
 
 NA_REASON = "check not built yet in this round (design in DESIGN.md section 4); no claim is made"
